@@ -93,6 +93,29 @@ theorem C18_contain (k : Cfg) (hk : k.contain = .sepTerminated) (cwd : Str) (fs 
 example : resolve ⟨.sepTerminated, true, true⟩ ['/'] ⟨['/','a','/','r'], true⟩ ['s','/','.','.','/','x']
     = .ok ['/','a','/','r','/','x'] := by decide +kernel
 
+/-- The root of a directory filesystem is in normal form: one or two slashes, then clean names. -/
+theorem C18_root_normal (cwd path : Str) (c : Bool) (h : isAbs cwd = true) :
+    NormalAbs (mkRaw cwd path c).root := by
+  unfold mkRaw abspath
+  apply normalAbs_normpath
+  split
+  · assumption
+  · exact isAbs_join2 cwd path h
+
+/-- **Completeness.** The constraint does not over-reject: a relative name (after the slash
+replacement the code applies) without `.`/`..` components is accepted, and names the root's
+components followed by its own. -/
+theorem C18_accepts (k : Cfg) (hk : k.contain = .sepTerminated) (cwd : Str) (fs : RawFS)
+    (hroot : NormalAbs fs.root) (p : Str)
+    (hrel : isAbs (if k.foldSlash then replaceBS p else p) = false)
+    (hclean : ∀ c ∈ comps (if k.foldSlash then replaceBS p else p), c ≠ dot ∧ c ≠ dotdot) :
+    ∃ q, resolve k cwd fs p = .ok q ∧
+      comps q = comps fs.root ++ comps (if k.foldSlash then replaceBS p else p) :=
+  accepts k hk cwd fs hroot p hrel hclean
+
+example : resolve ⟨.sepTerminated, true, true⟩ ['/'] ⟨['/','r'], true⟩ ['s','\\','f'] = .ok ['/','r','/','s','/','f'] := by
+  decide +kernel
+
 /-- The string-prefix test (the code before the fix) accepts a sibling whose name extends the
 root's name: a concrete escape.  The separator-terminated test rejects the same input. -/
 theorem C18_prefix_bug :
